@@ -126,7 +126,10 @@ class Runner:
                 else:
                     case = self.mod.gen_case(Rng(self.seed, self.prop, i), i, self.tier)
                     oracle = "wall_timeout_backstop" if status == "timeout" else "interpreter_died"
-                    violations.append((i, case, {"fp": {"oracle": oracle, "site": "case"}, "detail": payload, "nondeterministic_backstop": True}))
+                    fp = {"oracle": oracle, "site": "case"}
+                    if hasattr(self.mod, "case_class"):
+                        fp["class"] = self.mod.case_class(case)
+                    violations.append((i, case, {"fp": fp, "detail": payload, "nondeterministic_backstop": True}))
                     agg["cases"] += 1
             wall = time.monotonic() - t0
             rc = self._finish(agg, violations, harness_errors, wall)
